@@ -47,6 +47,9 @@ func (d *scriptDriver) GetDriverInfo() common.TracerouteDriverInfo {
 
 func (d *scriptDriver) SendProbe(ttl uint8) error {
 	r := d.w.park(&op{kind: opDrvSend, actor: d.actor + ".s", drv: d, ttl: int(ttl)})
+	if r.stall > 0 {
+		time.Sleep(r.stall)
+	}
 	return r.err
 }
 
@@ -131,6 +134,11 @@ func (d *scriptDriver) perform(w *World, o *op, now time.Duration) {
 			s.Failed = true
 			w.stat("fault.drv.sendErr")
 			w.release(o, opResult{err: errScriptFatal})
+			return
+		}
+		if d.sc.SendStallTTL == o.ttl && d.sc.SendStallUs > 0 {
+			w.stat("fault.drv.sendReturnStall")
+			w.release(o, opResult{stall: time.Duration(d.sc.SendStallUs)*time.Microsecond + 333*time.Nanosecond})
 			return
 		}
 		w.release(o, opResult{})
